@@ -3,6 +3,7 @@
 From Coq Require Import ZArith List Bool Arith Lia.
 Import ListNotations.
 From SK Require Import model.C20_Model model.C20_Persist proof.C20_Spec proof.C20_Siphon.
+Require SK.lib.Tok.
 
 Lemma nonempty_spec T : nonempty T = true <-> T <> [].
 Proof. destruct T; simpl; split; congruence. Qed.
@@ -50,6 +51,22 @@ Example persistence_example :
   siphon_persistence_condition (bipartite_of 2 rs) None [] = Some false /\
   siphon_persistence_condition (bipartite_of 0 []) None [[0]] = None.
 Proof. vm_compute. repeat split; reflexivity. Qed.
+
+(** the observable [run_net_p] (which let-binds the two siphon enumerations to evaluate them once) is [run_net] followed by the two
+    verdicts of [siphon_persistence_condition] *)
+Lemma run_net_p_is_run_net n rs und k cands order sup :
+  run_net_p n rs und k cands order sup =
+  let G0 := with_species_order order (bipartite_of n rs) in
+  let G := if und then orient_undirected (undirected_view G0) else G0 in
+  match run_net n rs und k cands order with
+  | SK.lib.Tok.L l => if split_ok G then SK.lib.Tok.L (l ++ [SK.lib.Tok.L [SK.lib.Tok.topt SK.lib.Tok.tbool (siphon_persistence_condition G None sup);
+                                                      SK.lib.Tok.topt SK.lib.Tok.tbool (siphon_persistence_condition G (Some k) sup)]]) else SK.lib.Tok.L l
+  | t => t
+  end.
+Proof.
+  unfold run_net_p, run_net, siphon_persistence_condition, persistence_of. cbv zeta.
+  destruct (split_ok _); reflexivity.
+Qed.
 
 (* ------------------------------------------------------------------ the analyzer's persistence field *)
 From SK Require Import proof.C20_Analyzer.
